@@ -56,7 +56,7 @@ class EngineError(Exception):
     pass
 
 
-def build(src, config, extra_flags=(), tag=None, deps=()):
+def build(src, config, extra_flags=(), tag=None, deps=(), libs=()):
     """compile one driver TU under one configuration; returns path of the binary"""
     cfgs = load_configs()
     cfg = cfgs[config]
@@ -75,7 +75,7 @@ def build(src, config, extra_flags=(), tag=None, deps=()):
             os.remove(old)
         except OSError:
             pass
-    cmd = [cxx] + flags + ['-I' + REPO, '-I' + os.path.join(VERIF, 'engine'), srcp, '-o', out + '.tmp'] + cfg.get('libs', [])
+    cmd = [cxx] + flags + ['-I' + REPO, '-I' + os.path.join(VERIF, 'engine'), srcp, '-o', out + '.tmp'] + cfg.get('libs', []) + list(libs)
     t = time.time()
     r = subprocess.run(cmd, capture_output=True, text=True)
     if r.returncode != 0:
@@ -207,7 +207,7 @@ def report(prop, tier, level, results, rule, t0, extra_cov=None, extra_viol=(), 
 def replay(prop, path, src_default, known_ids):
     rec = json.load(open(path))
     src = rec.get('driver') or src_default
-    binary = build(src, rec.get('config', 'default'))
+    import props as _p; binary = build(src, rec.get('config', 'default'), libs=tuple(_p.PROPS[prop].get('libs', [])))
     words = ','.join(rec['input_bits'])
     cmd = [binary, '--replay-op', rec['op'], '--replay-words', words]
     if known_ids:
